@@ -238,6 +238,15 @@ theorem C17_duplicate_star_reshuffled_counterexample :
     (Proc.run {} (h ++ [.replace "a" "" "" 9])).2 = [none, none, none, none, none] := by
   decide
 
+/-- FINDING F20 (counterexample; found by the thorough tier, reproduced on the real API): the back-link a removed
+    callback left behind survives its Remove: `c` Before("x") rewrites `x.after := "c"`; after Remove("c") a new
+    `c` registered After("*") is pulled in front of the unconstrained `x` (and of `p`). -/
+theorem C17_stale_backlink_counterexample :
+    let r := Proc.run {} [.register "a" "" "" true 0, .register "c" "x" "" true 1, .register "x" "" "" true 2,
+      .remove "c", .register "c" "" "*" true 4]
+    r.2 = [none, none, none, none, none] ∧ r.1.order = ["a", "c", "x"] := by
+  decide
+
 /-- positive instance (non-vacuity of the model): Before/After requests that gorm does honour -/
 example : (Proc.run {} [.register "a" "" "" true 0, .register "b" "" "" true 1,
     .register "x" "b" "" true 2, .register "y" "" "a" true 3]).1.fns = [0, 2, 1, 3] := by
